@@ -226,5 +226,7 @@ SUBS = [
     Sub("small_triples", body, enum=enum_triples, shards={"quick": 8, "thorough": 16}),
     Sub("after_edit", body_after_edit, strategy=lambda tier: crn_gen.edited_net_strategy(max_species=4, max_rxn=4, max_coef=2), examples={"quick": 4000, "thorough": 60000}, shards={"quick": 8, "thorough": 16},
         doc="network objects reached by in-place edits after an earlier analysis (remove+add, add, remove)"),
+    Sub("geometric", body, strategy=lambda tier: crn_gen.geometric_nets(), examples={"quick": 1500, "thorough": 30000}, shards={"quick": 8, "thorough": 16},
+        doc="coefficient chains / cycles of 3-7 steps (badly scaled stoichiometric matrices: rank and linkage-class deficiencies)"),
     Sub("random", body, strategy=strat, examples={"quick": 16000, "thorough": 300000}, shards={"quick": 16, "thorough": 16}),
 ]
